@@ -755,6 +755,16 @@ pub(crate) fn check_if_response_is_matched(
             .iter()
             .take_while(|h| h.total_difficulty() < difficulty_boundary)
             .count();
+        if before_boundary_count < reorg_count {
+            let errmsg = format!(
+                "failed to verify reorg last n headers since block#{} reaches the difficulty \
+                boundary ({:#x}) but is before the start block#{}",
+                headers[before_boundary_count].header().number(),
+                difficulty_boundary,
+                start_number
+            );
+            return Err(StatusCode::InvalidReorgHeaders.with_context(errmsg));
+        }
         let last_n_count = total_count - before_boundary_count;
         if last_n_count > last_n_blocks {
             (before_boundary_count - reorg_count, last_n_count)
